@@ -63,15 +63,16 @@ def _injected(p, mi, cont, w):
         except Exception as e1:
             first = _norm(e1)
         env.COUNTS["reached"] += 1
-        if cont == 0:  # retry unchanged: the original error again
-            try:
-                h.to_proto(mods[2])
-                WHY["why"] = "retry returned a package"
-                return False
-            except Exception as e2:
-                if _norm(e2) != first:
-                    WHY["why"] = f"retry reported a different error: {_norm(e2)[:200]} (first: {first[:200]})"
+        if cont == 0:  # retry unchanged, three times: the original error again, every time
+            for attempt in range(3):
+                try:
+                    h.to_proto(mods[2])
+                    WHY["why"] = "retry returned a package"
                     return False
+                except Exception as e2:
+                    if _norm(e2) != first:
+                        WHY["why"] = f"retry {attempt + 1} reported a different error: {_norm(e2)[:200]} (first: {first[:200]})"
+                        return False
             return True
     finally:
         reset_elaborator()
@@ -128,12 +129,13 @@ def _planted(fault, level, cont, w):
         first = _norm(e1)
     env.COUNTS["reached"] += 1
     if cont == 0:
-        try:
-            h.to_proto(m)
-            return _fail("retry of an ill-formed design returned a package")
-        except Exception as e2:
-            if _norm(e2) != first:
-                return _fail(f"retry reported a different error: {_norm(e2)[:200]} (first: {first[:200]})")
+        for attempt in range(3):
+            try:
+                h.to_proto(m)
+                return _fail("retry of an ill-formed design returned a package")
+            except Exception as e2:
+                if _norm(e2) != first:
+                    return _fail(f"retry {attempt + 1} reported a different error: {_norm(e2)[:200]} (first: {first[:200]})")
         if fault == 19:
             return True  # a name clash lives in the export name space only (see C02)
         try:
